@@ -1,5 +1,5 @@
 (* Revocation (C08), history level. *)
-From FositeModel Require Import Base.Str Model.Scope Model.Core Model.Flows Proofs.CoreInv Proofs.StepInv Proofs.Family Proofs.Decay.
+From FositeModel Require Import Base.Str Model.Scope Model.Core Model.Flows Proofs.CoreInv Proofs.StepInv Proofs.Family Proofs.Implicit Proofs.Decay.
 
 Arguments upd : simpl never.
 
@@ -14,13 +14,13 @@ Theorem revoke_effective cfg cls h1 c cl tok hint0 r h2 i e tampered hint scopes
   let res := revoke cfg s1 (Some c) tok hint0 in
   o_err (snd res) = "" /\
   (let s2 := run cfg (fst res) h2 in
-   nth_error (log s2) i = Some e -> i_rid e = r_id r -> i_kind e <> KImplicit ->
+   nth_error (log s2) i = Some e -> i_rid e = r_id r ->
    introspect cfg s2 {| p_ref := CRef i; p_tampered := tampered |} hint scopes = None).
 Proof.
   intros s1 Hc Hl Hcl Hep res.
   assert (I1 : Inv s1) by apply Inv_reachable.
-  destruct (revoke_kills cfg s1 c cl tok hint0 r I1 Hc Hl Hcl Hep) as [He Hd].
-  split; [exact He|]. intros s2 Hn Hrid Hkind.
+  destruct (revoke_kills_all cfg s1 c cl tok hint0 r I1 Hc Hl Hcl Hep) as [He Hd].
+  split; [exact He|]. intros s2 Hn Hrid.
   assert (I2 : Inv (fst res)) by (unfold res; rewrite revoke_is_step; now apply Inv_step).
   assert (Hlt : r_id r < next_rid (fst res)).
   { pose proof (next_rid_step cfg s1 (ORevoke (Some c) tok hint0)) as Hm. cbn [step] in Hm.
@@ -28,7 +28,7 @@ Proof.
     - pose proof (proj2 (inv_access_fresh s1 _ _ I1 Ha)). unfold res. lia.
     - pose proof (proj2 (inv_owner_fresh s1 I1 _ _ _ (inv_owner_implicit s1 I1 _ _ Hi))). unfold res. lia.
     - pose proof (proj2 (inv_refresh_fresh s1 _ _ _ I1 Hr)). unfold res. lia. }
-  eapply dead_credential_inactive; [apply Inv_run; exact I2|apply dead_run; [exact Hd|exact Hlt]|exact Hn|exact Hrid|exact Hkind].
+  eapply dead_all_credential_inactive; [apply Inv_run; exact I2|apply dead_all_run; [exact Hd|exact Hlt]|exact Hn|exact Hrid].
 Qed.
 
 (* a different authenticated client: unauthorized_client, nothing changes *)
@@ -91,4 +91,16 @@ Proof.
   cbn in Fa, Fi.
   split; [rewrite Fa, Ta; reflexivity|]. split; [rewrite Fi, Ti; reflexivity|].
   rewrite Tr. apply revoke_refresh_frame; [assumption|]. rewrite Ho. congruence.
+Qed.
+
+(* the authorization endpoint's token of a hybrid / implicit grant, over reachable states *)
+Theorem revoked_implicit_token_reachable cfg cls h1 c cl tok hnt r h2 i e tampered h scopes :
+  let s := run cfg (state0 cls) h1 in
+  clients s c = Some cl -> revoke_lookup s (key_of s tok) hnt = Some r -> r_client r = c ->
+  let s' := fst (revoke cfg s (Some c) tok hnt) in
+  nth_error (log (run cfg s' h2)) i = Some e -> i_rid e = r_id r -> i_kind e = KImplicit ->
+  introspect cfg (run cfg s' h2) {| p_ref := CRef i; p_tampered := tampered |} h scopes = None.
+Proof.
+  intros s Hc Hl Hcl s'. apply (revoked_implicit_token_stays_inactive cfg s c cl tok hnt r h2 i e tampered h scopes); try assumption.
+  apply Inv_reachable.
 Qed.
